@@ -7,6 +7,7 @@ import Tranp.Lemmas.Engine
 import Tranp.Lemmas.EngineWF
 import Tranp.Lemmas.EngineChain
 import Tranp.Lemmas.EngineLadder
+import Tranp.Lemmas.EngineSound
 import Tranp.Model.Ladder
 import Tranp.Generated.PyRules
 import Tranp.Generated.GramRules
@@ -397,6 +398,80 @@ theorem walrus_ternary_counterexample : ¬ walrus_ternary_statement := by
   unfold walrus_ternary_statement
   rw [walrus_ternary_engine]
   decide
+
+/-! ## T6 — the engine only returns derivations of the grammar -/
+
+/-- **Soundness of the matcher against the declarative reading of the rules** (`DSym`/`DPat`/`DSeq`/`DIter` in
+    Lemmas/EngineSound.lean: no cursor, no fuel, no right-to-left order, no ordered choice — a sequence derives the
+    concatenation of what its entries derive, an alternative what ONE of its entries derives, `( … )* + ?` / `[ … ]` an allowed
+    number of repetitions of the body, a symbol what its rule derives, wrapped and unwrapped as `_unwrap_children` does).
+    For every rule set, regexp oracle, cursor and symbol: a successful `_match_symbol` returns exactly one entry, and that
+    entry is a derivation of exactly the tokens consumed. -/
+theorem T6_sound_match (env : Env) (fuel : Nat) (ctx : Ctx) (peek : Nat) (sym : Str) (out : Out)
+    (h : matchSymbol env fuel ctx peek sym = .ok out) (hok : out.ok = true) :
+    ∃ c, out.children = [c] ∧ DSym env sym (consumed ctx out.steps) c :=
+  (sound_all env fuel).1 ctx peek sym out h hok
+
+/-- … hence every tree `parse` returns is a derivation of the WHOLE token list from the entrypoint: the engine never builds a
+    structure the grammar does not assign to the text (ordered choice and greedy repetition only select among derivations). -/
+theorem T6_sound (env : Env) (fuel : Nat) (source : Str) (toks : List Tok) (entry : Str) (t : Ast)
+    (h : parse env fuel source toks entry = .ok t) (hne : toks ≠ []) : DSym env entry toks t := by
+  obtain ⟨out, hm, hs, hc, hrest⟩ := T2_all_or_error env fuel source toks entry t h
+  obtain ⟨hok, _, _⟩ := hrest hne
+  obtain ⟨c, hc', hd⟩ := T6_sound_match env fuel _ _ _ _ hm hok
+  rw [hc] at hc'
+  simp only [List.cons.injEq, and_true] at hc'
+  subst hc'
+  have hcons : consumed (Ctx.start toks) out.steps = toks := by
+    have hl : toks.length = toks.reverse.length := by simp
+    simp only [consumed, Ctx.start, hs]
+    rw [hl, List.take_length, List.reverse_reverse]
+  rw [hcons] at hd
+  exact hd
+
+/-- non-vacuity of T6: `1+2` under `sumRules` is accepted, so the theorem applies to its tree -/
+example : (parse sumEnv (fuelBound sumRules 3) ['1', '+', '2'] [digitTok '1' 0, plusTok 1, digitTok '2' 2] ['s']).isOk = true := by
+  decide +kernel
+
+/-- `x := "a" ("a")*` -/
+def greedyRules : Rules :=
+  [(['x'], .group [.pattern ['a'] .terminal .equals, .group [.pattern ['a'] .terminal .equals] .and .overZero] .and .noRepeat)]
+
+def aTok (col : Int) : Tok := ⟨['a'], 0, ⟨0, col, 0, col + 1⟩⟩
+
+/-- The converse of T6 — every sentence the rules derive is accepted — for well-formed rule sets. -/
+def T6_complete_statement : Prop :=
+  ∀ (env : Env) (toks : List Tok) (entry : Str) (c : Ast), WFRules env.rules → env.kw = keywords env.rules →
+    DSym env entry toks c → ∃ t, parse env (fuelBound env.rules toks.length) [] toks entry = .ok t
+
+/-- It is FALSE for this engine: the matcher works from the right and a repeat group is greedy with no backtracking, so under
+    `x := "a" ("a")*` the text `a a` — plainly derivable — is rejected with Errors.Syntax (the `*` group swallows both tokens and
+    the leading `"a"` finds nothing). Acceptance of every sentence of py_gram.lark therefore cannot follow from the grammar alone;
+    it is checked by the `cpython-ast` search (every derived sentence must be accepted). The witness is replayed on the real
+    engine by the `engine-random` stream (corpus case `greedy-repeat`). -/
+theorem T6_complete_counterexample : ¬ T6_complete_statement := by
+  intro h
+  have hd : DSym (Env.of greedyRules (fun _ _ => false)) ['x'] [aTok 0, aTok 2] (unwrapChildren greedyRules ['x'] []) := by
+    refine DSym.rule ['x'] (.group [.pattern ['a'] .terminal .equals, .group [.pattern ['a'] .terminal .equals] .and .overZero] .and .noRepeat)
+      [aTok 0, aTok 2] [] (by decide) (by intro e comp hp; cases hp) ?_
+    refine DPat.and _ .noRepeat true _ _ (Or.inl rfl) ?_
+    have h1 : DPat (Env.of greedyRules (fun _ _ => false)) (.pattern ['a'] .terminal .equals) true [aTok 0] [] :=
+      DPat.term _ _ _ _ (by decide)
+    have hb : DPat (Env.of greedyRules (fun _ _ => false)) (.group [.pattern ['a'] .terminal .equals] .and .overZero) false [aTok 2] [] := by
+      refine DPat.and _ .overZero false _ _ (Or.inr rfl) ?_
+      exact DSeq.cons _ [] [aTok 2] [] [] [] (DPat.term _ _ _ _ (by decide)) DSeq.nil
+    have h2 : DPat (Env.of greedyRules (fun _ _ => false)) (.group [.pattern ['a'] .terminal .equals] .and .overZero) true [aTok 2] [] :=
+      DPat.rep _ .and .overZero 1 [aTok 2] [] trivial (DIter.succ _ _ _ 0 [aTok 2] [] [] [] hb (DIter.zero _ _ _))
+    exact DSeq.cons _ _ [aTok 0] [] [aTok 2] [] h1 (DSeq.cons _ [] [aTok 2] [] [] [] h2 DSeq.nil)
+  obtain ⟨t, ht⟩ := h (Env.of greedyRules (fun _ _ => false)) [aTok 0, aTok 2] ['x'] _ (by decide +kernel) rfl hd
+  revert ht
+  have : (match parse (Env.of greedyRules (fun _ _ => false)) (fuelBound greedyRules 2) [] [aTok 0, aTok 2] ['x'] with
+      | .error (.syntax _) => true
+      | _ => false) = true := by decide +kernel
+  intro ht
+  rw [show ([aTok 0, aTok 2] : List Tok).length = 2 from rfl, show (Env.of greedyRules (fun _ _ => false)).rules = greedyRules from rfl] at ht
+  rw [ht] at this
+  cases this
 
 /-! ## T5 — error line -/
 
